@@ -61,3 +61,22 @@ Definition be_val (bs : list N) : N := le_val (rev bs).
 Definition stored (buf : list N) (off : nat) (bytes : list N) : list N :=
   firstn off buf ++ bytes ++ skipn (off + length bytes) buf.
 Definition loaded (buf : list N) (off n : nat) : list N := firstn n (skipn off buf).
+
+(* the six store/load pairs as one family (vocabulary of the property statements) *)
+Inductive ekind : Type := BE16 | BE32 | BE64 | LE16 | LE32 | LE64.
+Definition ek_width (k : ekind) : nat :=
+  match k with BE16 | LE16 => 2 | BE32 | LE32 => 4 | BE64 | LE64 => 8 end%nat.
+Definition ek_enc (k : ekind) : list N -> nat -> N -> res (list N) :=
+  match k with
+  | BE16 => be16enc_m | BE32 => be32enc_m | BE64 => be64enc_m
+  | LE16 => le16enc_m | LE32 => le32enc_m | LE64 => le64enc_m
+  end.
+Definition ek_dec (k : ekind) : list N -> nat -> res N :=
+  match k with
+  | BE16 => be16dec_m | BE32 => be32dec_m | BE64 => be64dec_m
+  | LE16 => le16dec_m | LE32 => le32dec_m | LE64 => le64dec_m
+  end.
+Definition ek_bytes (k : ekind) : nat -> N -> list N :=
+  match k with BE16 | BE32 | BE64 => be_bytes | _ => le_bytes end.
+Definition ek_val (k : ekind) : list N -> N :=
+  match k with BE16 | BE32 | BE64 => be_val | _ => le_val end.
